@@ -623,7 +623,11 @@ def writable_array(obj, **kwargs):
         yield arr
     finally:
         if arr is not None:
-            obj[:] = arr
+            if arr.ndim == 0:
+                # `obj[:]` is not valid for zero-dimensional arrays
+                obj[()] = arr
+            else:
+                obj[:] = arr
 
 
 def signature_string(posargs, optargs, sep=', ', mod='!r'):
